@@ -353,7 +353,7 @@ impl<'a> ExGen<'a> {
 pub fn corpus(idx: u64) -> Option<(Vec<Cell>, Cell)> {
     let q1 = POOL[0].1;
     let sw = POOL[2].1;
-    let cases: [(&[&str], &str); 24] = [
+    let cases: [(&[&str], &str); 26] = [
         // seeded change C17b-2: the transformer must see the operands as written
         (&[q1], "(q1 (and 1 2))"),
         (&[sw], "(sw (or 1))"),
@@ -380,6 +380,9 @@ pub fn corpus(idx: u64) -> Option<(Vec<Cell>, Cell)> {
         (&[], "(lambda (and x) x)"),
         (&[], "(let ((and 1)) 2)"),
         (&[], "(lambda (x when) (when 1 2))"),
+        // finding C17-empty-ellipsis-before-tail met inside a form (found by the thorough tier of this stream)
+        (&["(define-syntax m (syntax-rules (lit) ((m () ... a) (() ((x) 1 a))) ((_ a) (a a ((a (a) (a f a)))))))"], "(f (m (#f)))"),
+        (&["(define-syntax m (syntax-rules () ((_ a ... b) (quote (a ... b))) ((_ c) (quote (second c)))))"], "(when 1 (m (and 1)))"),
     ];
     cases.get(idx as usize).map(|(ds, f)| (ds.iter().map(|d| parse(d)).collect(), parse(f)))
 }
